@@ -212,6 +212,47 @@ def healpix_family_case(ctx: Ctx, stream: str, i: int) -> None:
     ctx.case(f'family:{n}:{family}', True, sample={'family': [list(map(str, f)) for f in family[:5]]})
 
 
+def precision_case(ctx: Ctx, stream: str, i: int) -> None:
+    """64-bit mode: double-precision sky directions on landscapes whose MAP dtype is narrower, at fine resolutions: the
+    pixel is decided by the directions as given (healpy on the same float64 angles); directions within 1e-9 rad of a
+    pixel border are not compared."""
+    import healpy as hp
+    from furax.landscapes import HealpixLandscape
+    if not jax.config.jax_enable_x64:
+        ctx.count('precision:skipped-32-bit-mode')
+        return
+    rng = ctx.rng(stream, i)
+    nside = rng.choice([1024, 2048, 4096])
+    mdt = rng.choice([np.float32, np.float32, np.float16, np.float64])
+    land = HealpixLandscape(nside, 'I', mdt)
+    nprng = np.random.default_rng(rng.getrandbits(32))
+    npts = 60000
+    th = np.arccos(nprng.uniform(-1, 1, npts))
+    ph = nprng.uniform(0, 2 * np.pi, npts)
+    st, got = safe(land.world2index, jnp.asarray(th), jnp.asarray(ph))
+    cfg = {'nside': nside, 'map_dtype': str(np.dtype(mdt)), 'points': npts}
+    if st != 'ok':
+        ctx.fail(stream, i, f'world2index-raises:{st}', str(got)[:150], cfg)
+        return
+    got = np.asarray(got)
+    ref = hp.ang2pix(nside, th, ph)
+    bad = np.nonzero(got != ref)[0]
+    robust = []
+    for k in bad[:200]:
+        eps = 1e-9
+        if all(hp.ang2pix(nside, float(np.clip(th[k] + a, 0, np.pi)), float(ph[k] + b)) == ref[k]
+               for a, b in ((eps, 0), (-eps, 0), (0, eps), (0, -eps))):
+            robust.append(int(k))
+    if robust:
+        k = robust[0]
+        ctx.fail(stream, i, 'healpix-random-directions:fine-resolution',
+                 f'nside={nside}, map dtype {cfg["map_dtype"]}: {len(robust)} of {npts} double-precision directions (not within '
+                 f'1e-9 rad of a border) fall in another pixel than healpy says, e.g. theta={th[k]!r} phi={ph[k]!r}: '
+                 f'{int(got[k])} vs {int(ref[k])}', cfg)
+    ctx.count('precision:' + cfg['map_dtype'])
+    ctx.case(f'precision:{nside}:{cfg["map_dtype"]}:{i}', True, sample={'precision': cfg, 'border_ties': int(len(bad) - len(robust))})
+
+
 def run(ctx: Ctx) -> None:
     q = ctx.tier == 'quick'
     for i in range(120 if q else 3000):
@@ -226,6 +267,9 @@ def run(ctx: Ctx) -> None:
     for i in range(16 if q else 200):
         if ctx.want('family', i):
             healpix_family_case(ctx, 'family', i)
+    for i in range(8 if q else 80):
+        if ctx.want('precision', i):
+            precision_case(ctx, 'precision', i)
     for i in range(2):
         if ctx.want('bigmap', i):
             bigmap_case(ctx, 'bigmap', i)
